@@ -13,7 +13,7 @@ import traceback
 HERE = os.path.dirname(os.path.abspath(__file__))
 sys.path.insert(0, os.path.dirname(HERE))
 
-from sa.core import Repo, Check, AnalysisError, finish  # noqa: E402
+from sa.core import Repo, Check, AnalysisError, finish, run_rules  # noqa: E402
 
 ALL = [f"C{i:02d}" for i in range(1, 21)]
 
@@ -27,13 +27,13 @@ def run_one(prop, tier, repo_root):
     try:
         repo = Repo(repo_root)
         chk = Check(prop, repo, tier)
-        mod.run(chk)
+        run_rules(mod, chk)
         if tier == "thorough" and hasattr(mod, "run_thorough"):
             mod.run_thorough(chk)
         if tier == "thorough":
             from sa import selftest
             selftest.run_for(prop, chk)
-        if not chk.obs:
+        if not chk.obs and not chk.analysis_errors:
             raise AnalysisError("no obligations produced")
         return finish(chk, level=getattr(mod, "LEVEL", "other"),
                       explanation=getattr(mod, "EXPLANATION", ""))
